@@ -52,10 +52,13 @@ type wIn struct {
 	Value  string   // resolve: the value whose top-level tokens are resolved
 	Props  []string // meta: properties to read
 	Alt    string   // meta (computed mode): optional third block, see emitT
+	Layout int      // computed: 0 `body{Parent} p{Block}`, 1 `html{Parent} body{Block}` (the parent is the root),
+	// 2 `html{Block}` (the probe IS the root element: no parent style)
 }
 
 type wOut struct {
 	Err    string
+	Panic  string   // computed: /repo panicked while the style was built or read (a failing input)
 	Probe  []string // computed: Coq values of the probe element
 	Parent []string // computed: Coq values of the parent (body)
 	Extra  []string // computed: CE entries of substituted tokens
@@ -66,9 +69,19 @@ type wOut struct {
 	Meta   string // meta: canonical observable
 }
 
-func styleOf(parent, block string) (htmlS, pS pr.ElementStyle, err error) {
-	html := "<style>body{" + parent + "} p{" + block + "}</style><p></p>"
-	doc, err := tree.NewHTML(utils.InputString(html), "http://verif.test/", nil, "")
+func layoutHTML(layout int, parent, block string) string {
+	switch layout {
+	case 1:
+		return "<style>html{" + parent + "} body{" + block + "}</style><p></p>"
+	case 2:
+		return "<style>html{" + block + "}</style><p></p>"
+	}
+	return "<style>body{" + parent + "} p{" + block + "}</style><p></p>"
+}
+
+// the computed styles of the parent (nil when the probe is the root element) and of the probe element
+func styleOfLayout(layout int, parent, block string) (parentS, probeS pr.ElementStyle, err error) {
+	doc, err := tree.NewHTML(utils.InputString(layoutHTML(layout, parent, block)), "http://verif.test/", nil, "")
 	if err != nil {
 		return nil, nil, err
 	}
@@ -76,7 +89,17 @@ func styleOf(parent, block string) (htmlS, pS pr.ElementStyle, err error) {
 	sf := tree.GetAllComputedStyles(doc, nil, false, nil, nil, nil, nil, false, nil)
 	body := doc.Root.FirstChild.NextSibling
 	p := body.FirstChild
+	switch layout {
+	case 1:
+		return sf.Get(doc.Root, ""), sf.Get((*utils.HTMLNode)(body), ""), nil
+	case 2:
+		return nil, sf.Get(doc.Root, ""), nil
+	}
 	return sf.Get((*utils.HTMLNode)(body), ""), sf.Get((*utils.HTMLNode)(p), ""), nil
+}
+
+func styleOf(parent, block string) (htmlS, pS pr.ElementStyle, err error) {
+	return styleOfLayout(0, parent, block)
 }
 
 func variablesOf(blocks ...string) map[string]pr.RawTokens {
@@ -104,6 +127,9 @@ func handle(in string) (out string) {
 		if r := recover(); r != nil {
 			if u, ok := r.(unprintable); ok {
 				wo = wOut{Err: "unprintable: " + u.why}
+			} else if wi.Kind == "computed" {
+				// the implementation panicked on this document: a failing input, not a skipped one
+				wo = wOut{Panic: fmt.Sprintf("panic: %v", r)}
 			} else {
 				wo = wOut{Err: fmt.Sprintf("panic: %v", r)}
 			}
@@ -114,7 +140,7 @@ func handle(in string) (out string) {
 	json.Unmarshal([]byte(in), &wi)
 	switch wi.Kind {
 	case "computed":
-		hs, ps, err := styleOf(wi.Parent, wi.Block)
+		hs, ps, err := styleOfLayout(wi.Layout, wi.Parent, wi.Block)
 		if err != nil {
 			wo.Err = err.Error()
 			break
@@ -123,7 +149,11 @@ func handle(in string) (out string) {
 			k := pr.PropsFromNames[name].Key()
 			v := ps.Get(k)
 			wo.Probe = append(wo.Probe, coqValue(v))
-			wo.Parent = append(wo.Parent, coqValue(hs.Get(k)))
+			if hs != nil {
+				wo.Parent = append(wo.Parent, coqValue(hs.Get(k)))
+			} else {
+				wo.Parent = append(wo.Parent, "VInitial") // no parent style: never read by the model
+			}
 			wo.Desc = append(wo.Desc, fmt.Sprintf("%s=%v", name, v))
 		}
 		// colours of tokens built by substitution inside functions
@@ -331,14 +361,23 @@ func main() {
 	var corpusMeta [][4]string // mode, canonical, variant, props
 	unsupported := map[string]bool{} // value-table entries known to be rejected (valid CSS, not supported)
 
-	addComputed := func(r *vlib.Rng, parentCustom, block string, tags []string) {
+	addComputedL := func(r *vlib.Rng, layout int, parentCustom, block string, tags []string) {
 		probeProps, sentinel := probeFor(r, block)
 		parent := sentinel + parentCustom
+		if layout == 2 { // the probe is the root element: there is no parent rule
+			parent = ""
+		}
+		tags = append(append([]string{}, tags...), []string{"probe-child", "probe-child-of-root", "probe-root"}[layout])
 		cs := pa.ParseBlocksContentsString(block)
 		pcs := pa.ParseBlocksContentsString(parent)
-		pend = append(pend, pending{kind: "computed", in: wIn{Kind: "computed", Parent: parent, Block: block, Props: probeProps},
+		pend = append(pend, pending{kind: "computed", in: wIn{Kind: "computed", Parent: parent, Block: block, Props: probeProps, Layout: layout},
 			build: func(wo wOut, status int, fatal string) []vlib.Case {
 				var c vlib.Case
+				if wo.Panic != "" && status == 0 {
+					// the implementation panicked on this document (recovered in the worker)
+					status, fatal = 1, wo.Panic
+					wo.Probe, wo.Parent, wo.Desc = nil, nil, []string{wo.Panic}
+				}
 				ok := safe(func() {
 					o := newOracle()
 					o.addCompounds(cs)
@@ -353,10 +392,14 @@ func main() {
 					for i := range wo.Probe {
 						outs[i] = "OE " + str(probeProps[i]) + " " + wo.Probe[i]
 					}
+					var parentVals []string
+					if len(wo.Parent) == len(probeProps) {
+						parentVals = wo.Parent
+					}
 					c = vlib.Case{Kind: "computed",
-						Coq: fmt.Sprintf("CComputed %s %s %s %s %d %s", coqRaws(pcs), coqRaws(cs), o.coq(), tables(probeProps, wo.Parent), status, vlib.List(outs)),
-						Desc: map[string]interface{}{"html": "<style>body{" + parent + "} p{" + block + "}</style><p></p>",
-							"computed_style_of_p": wo.Desc, "status": []string{"ok", "fatal", "hang"}[status], "fatal": fatal},
+						Coq: fmt.Sprintf("CComputed %s %s %s %s %s %d %s", vlib.Bool(layout == 2), coqRaws(pcs), coqRaws(cs), o.coq(), tables(probeProps, parentVals), status, vlib.List(outs)),
+						Desc: map[string]interface{}{"html": layoutHTML(layout, parent, block), "probe_element": []string{"p", "body", "html"}[layout],
+							"computed_style_of_probe": wo.Desc, "status": []string{"ok", "fatal", "hang"}[status], "fatal": fatal},
 						Tags: append(tags, "status-"+[]string{"ok", "fatal", "hang"}[status]), Nontrivial: true}
 				})
 				if !ok || wo.Err != "" {
@@ -364,6 +407,9 @@ func main() {
 				}
 				return []vlib.Case{c}
 			}})
+	}
+	addComputed := func(r *vlib.Rng, parentCustom, block string, tags []string) {
+		addComputedL(r, 0, parentCustom, block, tags)
 	}
 	addResolve := func(block, value string, tags []string) {
 		pend = append(pend, pending{kind: "resolve", in: wIn{Kind: "resolve", Block: block, Value: value},
@@ -434,6 +480,10 @@ func main() {
 					}
 				case fs[0] == "computed" && len(fs) >= 3:
 					addComputed(rng.Fork(), fs[1], fs[2], append(blockTags(fs[2]), "corpus"))
+				case fs[0] == "computed-root" && len(fs) >= 3: // the probe is the root element (fs[1] unused)
+					addComputedL(rng.Fork(), 2, "", fs[2], append(blockTags(fs[2]), "corpus"))
+				case fs[0] == "computed-body" && len(fs) >= 3: // html{fs[1]} body{fs[2]}
+					addComputedL(rng.Fork(), 1, fs[1], fs[2], append(blockTags(fs[2]), "corpus"))
 				case fs[0] == "resolve" && len(fs) >= 3:
 					addResolve(fs[1], fs[2], []string{"corpus"})
 				case fs[0] == "unsupported" && len(fs) >= 2:
@@ -477,9 +527,25 @@ func main() {
 			if g.r.Bool() {
 				uses = append(uses, g.varUse(names))
 			}
+			// the probe element: a child of body, body (its parent is the root), or the root itself
+			layout := vlib.Pick(g.r, []int{0, 0, 1, 2})
+			var wtags []string
+			if g.r.Chance(1, 3) {
+				// a custom property holding a CSS-wide keyword (any case; `unset` / `revert` are
+				// not supported: invalid at computed-value time), possibly through a chain or a
+				// fallback, substituted into longhands and shorthands
+				wd, wu := g.wideKeywordUses()
+				gdecls = append(gdecls, wd...)
+				uses = append(uses, wu...)
+				wtags = []string{"var-css-wide-keyword"}
+			}
+			if layout == 2 { // no parent rule: the whole graph lives on the root
+				gdecls = append(append([]string{}, pextra...), gdecls...)
+				pextra = nil
+			}
 			block := g.block(true, names, append(gdecls, uses...), 3)
 			parent := "--inh: 7px; --pc: blue; " + strings.Join(pextra, "; ")
-			addComputed(g.r, parent, block, blockTags(block))
+			addComputedL(g.r, layout, parent, block, append(blockTags(block), wtags...))
 		default:
 			gdecls, names := g.graph()
 			value := g.varRef(names, 2)
